@@ -33,6 +33,7 @@ func init() {
 		"veqstr":       func(e *Exec, a []Value) Value { return e.strEq(a[0].(Str), a[1].(Str)) },
 		"vsymstr":      primSymStr,
 		"vscannerSplit": primScannerSplit,
+		"vdeepequal":    primDeepEqual,
 	}
 }
 
@@ -295,4 +296,106 @@ func primScannerSplit(e *Exec, a []Value) Value {
 		}
 	}
 	panic("vscannerSplit: field not found")
+}
+
+// vdeepequal(a, b): structural equality following pointers, slices and maps (cycles handled by a visited set).
+func primDeepEqual(e *Exec, a []Value) Value {
+	type pair struct{ x, y interface{} }
+	seen := map[pair]bool{}
+	var eq func(x, y Value) Bool
+	eq = func(x, y Value) Bool {
+		switch xv := x.(type) {
+		case *Value:
+			yv, ok := y.(*Value)
+			if !ok {
+				return Bool{C: false}
+			}
+			if xv == nil || yv == nil {
+				return Bool{C: xv == yv}
+			}
+			if xv == yv || seen[pair{xv, yv}] {
+				return Bool{C: true}
+			}
+			seen[pair{xv, yv}] = true
+			return eq(*xv, *yv)
+		case Struct:
+			yv, ok := y.(Struct)
+			if !ok || len(xv) != len(yv) {
+				return Bool{C: false}
+			}
+			r := Bool{C: true}
+			for i := range xv {
+				r = e.and(r, eq(xv[i], yv[i]))
+				if r.S == nil && !r.C {
+					return r
+				}
+			}
+			return r
+		case Array:
+			yv, ok := y.(Array)
+			if !ok || len(xv) != len(yv) {
+				return Bool{C: false}
+			}
+			r := Bool{C: true}
+			for i := range xv {
+				r = e.and(r, eq(xv[i], yv[i]))
+			}
+			return r
+		case Slice:
+			yv, ok := y.(Slice)
+			if !ok || xv.Nil != yv.Nil || xv.N != yv.N {
+				return Bool{C: false}
+			}
+			r := Bool{C: true}
+			for i := 0; i < xv.N; i++ {
+				r = e.and(r, eq(xv.B[i], yv.B[i]))
+				if r.S == nil && !r.C {
+					return r
+				}
+			}
+			return r
+		case *Map:
+			yv, ok := y.(*Map)
+			if !ok {
+				return Bool{C: false}
+			}
+			if xv == nil || yv == nil {
+				return Bool{C: xv == yv}
+			}
+			if xv.Len() != yv.Len() {
+				return Bool{C: false}
+			}
+			r := Bool{C: true}
+			for i, k := range xv.Keys {
+				if k == nil {
+					continue
+				}
+				j := e.mapFind(yv, k)
+				if j < 0 {
+					return Bool{C: false}
+				}
+				r = e.and(r, eq(xv.Vals[i], yv.Vals[j]))
+			}
+			return r
+		case Iface:
+			yv, ok := y.(Iface)
+			if !ok {
+				return Bool{C: false}
+			}
+			if xv.T == nil || yv.T == nil {
+				return Bool{C: xv.T == nil && yv.T == nil}
+			}
+			if !types.Identical(xv.T, yv.T) {
+				return Bool{C: false}
+			}
+			return eq(xv.V, yv.V)
+		case *Native:
+			yv, _ := y.(*Native)
+			return Bool{C: xv == yv}
+		case nil:
+			return Bool{C: y == nil}
+		}
+		return e.equals(x, y)
+	}
+	return eq(a[0], a[1])
 }
